@@ -2,6 +2,7 @@
  * without (FAIL=0) allocation / OS-object creation failures. */
 #include "verif.h"
 #include "common/alloc_model.h"
+#define V_SYNC_POOL 14
 #include "common/threads_model.h"
 #include "EbDefinitions.h"
 #include "EbObject.h"
